@@ -190,3 +190,44 @@ theorem code_total_revenue_eq (L cy : Nat) (hcy : 1 ≤ cy) (capex opex : Rat) (
     simp
 
 end GeoVerif
+
+namespace GeoVerif
+open Py
+
+theorem fabs_of_nonpos (q : Rat) (h : q ≤ 0) : Py.fabs q = -q := by
+  unfold Py.fabs
+  by_cases hq : q < 0
+  · simp [hq]
+  · have : q = 0 := le_antisymm h (not_lt.mp hq)
+    simp [this]
+
+theorem drop_one_range (n : Nat) : (List.range n).drop 1 = (List.range (n - 1)).map (fun k => 1 + k) := by
+  apply List.ext_getElem
+  · simp
+  · intro i h1 h2
+    simp
+
+/-- the payback statements of `Economics.Calculate`, as transcribed from the current source, are the model `paybackFixed` -/
+theorem code_payback_eq (cum : List Rat) : Code.PaybackFragment cum = paybackFixed cum := by
+  unfold Code.PaybackFragment paybackFixed
+  have er : Py.range (1 : Int) (Py.len cum) = (List.range (cum.length - 1)).map (fun (k : Nat) => (1 : Int) + (k : Int)) := by
+    have : ((cum.length : Int) - 1).toNat = cum.length - 1 := by omega
+    simp [Py.range, Py.len, this]
+  simp only [er, drop_one_range, List.foldl_map]
+  congr 1
+  funext p k
+  have h1 : 1 ≤ 1 + k := by omega
+  have eg : Py.get cum ((1 : Int) + (k : Int)) = cum.getD (1 + k) 0 := by
+    have := get_add cum 1 k
+    simpa using this
+  have ep : Py.get cum ((1 : Int) + (k : Int) - 1) = cum.getD k 0 := by
+    have := get_add_pred cum 1 k h1
+    simpa using this
+  simp only [eg, ep, paybackStep, Nat.add_sub_cancel_left, Int.cast_zero, gt_iff_lt, ge_iff_le]
+  by_cases hc : 0 < cum.getD (1 + k) 0 ∧ cum.getD k 0 ≤ 0
+  · simp only [hc, and_self, if_true, fabs_of_nonpos _ hc.2]
+    push_cast
+    ring
+  · simp only [hc, if_false]
+
+end GeoVerif
